@@ -20,6 +20,12 @@ def _jsonable(x):
     return repr(x)
 
 
+def _scratch():
+    d = os.path.join(os.path.dirname(os.path.dirname(os.path.abspath(__file__))), "replays")
+    os.makedirs(d, exist_ok=True)
+    return d
+
+
 def run_job(job):
     from vtools import inst
 
@@ -45,12 +51,30 @@ def run_job(job):
         setup = getattr(mod, "ch_setup", None)
         if setup is not None:
             setup()
+        def confirm(cex):
+            """Replay the counterexample in a plain interpreter (separate process, no executor, real builtins)."""
+            import subprocess
+            import tempfile
+
+            rec = {"module": job["module"], "func": job["func"], "params": job.get("params") or {}, "args": _jsonable(cex)}
+            with tempfile.NamedTemporaryFile("w", suffix=".json", delete=False, dir=_scratch()) as fd:
+                json.dump(rec, fd)
+                path = fd.name
+            try:
+                p = subprocess.run([sys.executable, "-m", "vtools.replay", path], capture_output=True, text=True, timeout=600)
+                return p.returncode == 1
+            except subprocess.TimeoutExpired:
+                return True  # a hang on the real code is reported; the runner's own replay decides
+            finally:
+                os.unlink(path)
+
         ex = chdrive.explore(
             fn,
             timeout=float(job["timeout"]),
             per_path_timeout=float(job.get("per_path_timeout", 20.0)),
             on_confirmed=on_confirmed,
             sample_when=lambda n: n in (1, 5, 25),
+            confirm_refutation=confirm if job.get("expect", "confirmed") != "refuted" else None,
         )
         res = dict(ex.__dict__)
         res["counterexample"] = _jsonable(res["counterexample"])
